@@ -30,6 +30,12 @@ def run(ctx):
     keys = kg.traces
     n_acc = sum(1 for k in keys if k["acc"])
     n_alias = sum(1 for k in keys if k["alias"])
+    # the key space must contain the NUL-split ".." aimed at a sibling whose name starts with the root's name, and the
+    # same ".." aimed at the root's own name (which legitimately stays inside)
+    sib = [k for k in keys if k["key"][:5] == [".", "0", ".", "/", "r"] and len(k["key"]) == 6 and k["key"][5] in ("a", "b")]
+    back = [k for k in keys if k["key"][:6] == [".", "0", ".", "/", "r", "/"] or k["key"] == [".", "0", ".", "/", "r"]]
+    if not sib or any(k["acc"] for k in sib) or not back or not all(k["acc"] for k in back):
+        raise InfraError("key model lost the rootname-prefixed sibling class: %d sibling keys, %d back-into-root keys" % (len(sib), len(back)))
     if not n_acc or n_acc == len(keys) or not n_alias:
         raise InfraError("vacuous key model: accepted=%d of %d, aliases=%d" % (n_acc, len(keys), n_alias))
     # negative controls: the model of LocalBackend as first written (root-alias keys accepted by the object operations)
@@ -43,7 +49,8 @@ def run(ctx):
     n_obj = sum(1 for k in keys if k["obj"])
     ctx.note("tlc_keys", {"cfg": "Keys_Gen_%s.cfg" % size, "distinct": kg.distinct, "generated": kg.generated, "depth": kg.depth,
                           "keys": len(keys), "accepted_by_validatePath": n_acc, "root_alias": n_alias, "accepted_by_object_operations": n_obj,
-                          "invariants_holding": ["ResolvedInside", "StagingInside", "ManifestStagingInside", "SyncNeverAlias"],
+                          "keys_with_root_name_token": sum(1 for k in keys if "r" in k["key"]), "nul_split_sibling_keys": len(sib),
+                          "invariants_holding": ["ResolvedInside", "SiblingRejected", "StagingInside", "ManifestStagingInside", "SyncNeverAlias"],
                           "negative_controls": ncs})
     # ------------------------------------------------------------------ (b) model
     mc = ctx.tlc("localfs", "LocalFS", "MC_%s.cfg" % size, coverage=True, timeout=900, workers=4)
@@ -126,7 +133,7 @@ def run(ctx):
         else:
             raise InfraError("trace validation failed without a diagnosis: %s" % (tv.error,))
     ctx.note("exhaustive", True)
-    ctx.note("rule", "(a) every key of <=%d characters over {/ . NUL \\\\ other} x 2 spellings x 15 backend operations, + validator-derived edge-sync paths, "
+    ctx.note("rule", "(a) every key of <=%d tokens over {/ . NUL \\\\ other} (+ the root directory's own name once, at the start of a segment) x 2 spellings x 15 backend operations, + validator-derived edge-sync paths, "
                      "+ %s hand-made/random byte strings; (b) every scenario of LocalFS.tla (<=%d chunks) x every syscall boundary as a real SIGKILL point"
              % (6 if ctx.quick() else 7, "1.5k" if ctx.quick() else "20k", 2 if ctx.quick() else 3))
     ctx.assume("crash = process death (SIGKILL); power loss / missing fsync is out of scope")
